@@ -7,12 +7,11 @@ from pydantic import BaseModel, ConfigDict
 
 from primaite import DEFAULT_BANDWIDTH, getLogger
 from primaite.game.agent.interface import AbstractAgent, ProxyAgent
-from primaite.game.agent.observations import NICObservation
 from primaite.game.agent.rewards import SharedReward
 from primaite.game.science import graph_has_cycle, topological_sort
 from primaite.simulator import SIM_OUTPUT
 from primaite.simulator.network.creation import NetworkNodeAdder
-from primaite.simulator.network.hardware.base import NetworkInterface, Node, NodeOperatingState, UserManager
+from primaite.simulator.network.hardware.base import Node, NodeOperatingState, UserManager
 from primaite.simulator.network.hardware.nodes.host.host_node import NIC
 from primaite.simulator.network.hardware.nodes.network.firewall import Firewall  # noqa: F401
 from primaite.simulator.network.hardware.nodes.network.switch import Switch
@@ -266,9 +265,8 @@ class PrimaiteGame:
         nodes_cfg = network_config.get("nodes", [])
         links_cfg = network_config.get("links", [])
         node_sets_cfg = network_config.get("node_sets", [])
-        # Set the NMNE capture config
-        NetworkInterface.nmne_config = NMNEConfig(**network_config.get("nmne_config", {}))
-        NICObservation.capture_nmne = NMNEConfig(**network_config.get("nmne_config", {})).capture_nmne
+        # Set the NMNE capture config of this game's own network
+        net.nmne_config = NMNEConfig(**network_config.get("nmne_config", {}))
 
         for node_cfg in nodes_cfg:
             n_type = node_cfg["type"]
